@@ -131,8 +131,12 @@ def check_vector(v, dt, ids, acc, case, order, full):
     # grouped mean, 1-D and 2-D values
     vals1 = np.array([(3 * i + 1) % 11 for i in range(n)], dtype=np.float64)
     vals2 = np.stack([vals1, vals1 * 2 - 1], axis=1) if n else np.zeros((0, 2))
-    for vals in (vals1, vals2):
-        exp = [np.mean(vals[[i for i in range(n) if v[i] == c]], axis=0) for c in present]
+    # ... and integer- / single-precision-valued quantities (counts, channel numbers): the mean of
+    # integers is not an integer
+    vals3 = vals1.astype(np.int32)
+    vals4 = (vals2 * 0.5).astype(np.float32)
+    for vals in (vals1, vals2, vals3, vals4):
+        exp = [np.mean(vals[[i for i in range(n) if v[i] == c]].astype(np.float64), axis=0) for c in present]
         exp = np.array(exp) if present else np.zeros((0,) + vals.shape[1:])
         try:
             got = grouped_mean(vals, arr)
